@@ -121,8 +121,41 @@ func playRaw(h history) (res [][]int64, rep []bool, cache [][2]int64) {
 		}
 		return -2
 	}
-	for _, o := range h.ops {
+	// the decoy: a second, unrelated ring used between the history's calls (package-level or
+	// shared state would show) and, for a quarter of the histories, from another goroutine
+	decoy := consistent.New()
+	stop := make(chan struct{})
+	defer close(stop)
+	if len(h.ops)%4 == 3 {
+		go func() {
+			d2 := consistent.New()
+			for i := 0; ; i++ {
+				select {
+				case <-stop:
+					return
+				default:
+				}
+				n := fmt.Sprintf("decoy2-%d", i%7)
+				d2.AddNode(n)
+				d2.GetNodeBy(n)
+				if i%3 == 0 {
+					d2.RemoveNode(n)
+				}
+			}
+		}()
+	}
+	for t, o := range h.ops {
 		n := h.names[o[1]]
+		Catch(func() {
+			dn := fmt.Sprintf("decoy-%d", t%5)
+			if t%3 == 1 {
+				decoy.RemoveNode(dn)
+			} else {
+				decoy.AddNode(n) // the history's own names, too
+				decoy.AddNode(dn)
+			}
+			decoy.GetNodeBy(n)
+		})
 		p, _ := Catch(func() {
 			if o[0] == 0 || o[0] == 2 {
 				c.AddNode(n)
